@@ -95,6 +95,7 @@ func chunkOldIndex(ctx context.Context, file *os.File, name string, fileSizeLimi
 			if err == io.EOF {
 				break
 			}
+			outFile.Close()
 			return 0, err
 		}
 		size := binary.LittleEndian.Uint32(sizeBuffer)
@@ -116,6 +117,7 @@ func chunkOldIndex(ctx context.Context, file *os.File, name string, fileSizeLimi
 		if written >= fileSizeLimit {
 			vhook.At("index.upgrade.chunk.before-flush")
 			if err = writer.Flush(); err != nil {
+				outFile.Close()
 				return 0, err
 			}
 			outFile.Close()
@@ -137,6 +139,7 @@ func chunkOldIndex(ctx context.Context, file *os.File, name string, fileSizeLimi
 	if written != 0 {
 		vhook.At("index.upgrade.chunk.before-flush-last")
 		if err = writer.Flush(); err != nil {
+			outFile.Close()
 			return 0, err
 		}
 	}
